@@ -152,26 +152,33 @@ Theorem C16_kernel_fsm_done_pulse :
   (vs_done s' = 1 <-> vk_state (vs_st s) = 2 /\ sent = true) /\
   (vs_done s' = 1 <-> vk_state (vs_st s') = 3) /\ (vs_done s' = 0 \/ vs_done s' = 1).
 Proof. exact S_kernel_fsm_done_pulse. Qed.
-(* Axi2ClkFSM: a handshake in IDLE (counter at 0) with target n >= 1 gives exactly n clk_out pulses, then load_outs for
-   exactly one cycle, then idle, whatever is presented during those 2n+2 cycles; cw = width of the clk_count wire *)
+(* Axi2ClkFSM: a handshake taken in IDLE with target n >= 1 gives exactly n clk_out pulses, then load_outs for exactly one
+   cycle, then idle, whatever is presented during those 2n+2 cycles and WHATEVER THE COUNTER HELD (a2c_idle c: every run starts
+   from zero); cw = width of the clk_count wire *)
 Theorem C16_axi2clk_fsm_pulse_train :
-  forall cw (n : nat) ins, 0 <= cw -> (1 <= n)%nat -> Z.of_nat n < 2 ^ cw -> length ins = (2 * n + 2)%nat ->
-  a2c_trace cw (a2c_idle 0) ((true, Z.of_nat n) :: ins) = a2c_expected n.
+  forall cw (n : nat) c ins, 0 <= cw -> (1 <= n)%nat -> Z.of_nat n < 2 ^ cw -> length ins = (2 * n + 2)%nat ->
+  a2c_trace cw (a2c_idle c) ((true, Z.of_nat n) :: ins) = a2c_expected n.
 Proof. exact S_axi2clk_fsm_pulse_train. Qed.
-(* back-to-back requests (handshake in the first idle cycle after a run).  The statement is
-   selected by a probe of the REGENERATED FSM (Model/Axi.v a2c_clears_on_handshake):
-   - code that clears clk_count at the handshake (fixes/C16-F2.diff):  the pulse train is exact from ANY counter value;
-   - pinned code (finding C16-F2): refutation witness — the request starts from the stale count and does not stop at its target. *)
+(* back-to-back requests: a second handshake in the very first idle cycle after a run (the counter still holds the previous
+   target) is served exactly: n1 pulses, load_outs, then at once n2 pulses, load_outs, idle.   (Finding C16-F2, repaired in
+   /repo by 03e7104; before the repair the second run started from the stale count: see the Example below.) *)
 Theorem C16_axi2clk_fsm_back_to_back :
-  if a2c_clears_on_handshake
-  then forall cw (n : nat) c ins, 0 <= cw -> (1 <= n)%nat -> Z.of_nat n < 2 ^ cw -> length ins = (2 * n + 2)%nat ->
-       a2c_trace cw (a2c_idle c) ((true, Z.of_nat n) :: ins) = a2c_expected n
-  else let first := (true, 2) :: repeat (false, 0) 5 in
-       let second := (true, 1) :: repeat (false, 0) 10 in
-       a2c_trace 8 (a2c_idle 0) (first ++ [(false, 0)]) = a2c_expected 2 /\
-       skipn 7 (map fst (a2c_trace 8 (a2c_idle 0) (first ++ second))) = [1; 0; 1; 0; 1; 0; 1; 0; 1; 0] /\
-       Forall (fun p => snd p = 0) (skipn 6 (a2c_trace 8 (a2c_idle 0) (first ++ second))).
+  forall cw (n1 n2 : nat) c ins1 ins2,
+  0 <= cw -> (1 <= n1)%nat -> (1 <= n2)%nat -> Z.of_nat n1 < 2 ^ cw -> Z.of_nat n2 < 2 ^ cw ->
+  length ins1 = (2 * n1 + 1)%nat -> length ins2 = (2 * n2 + 2)%nat ->
+  a2c_trace cw (a2c_idle c) ((true, Z.of_nat n1) :: ins1 ++ (true, Z.of_nat n2) :: ins2) =
+  (0, 0) :: concat (repeat [(1, 0); (0, 0)] n1) ++ [(0, 1)] ++ a2c_expected n2.
 Proof. exact S_axi2clk_fsm_back_to_back. Qed.
+
+(* history: the same schedule on a hand copy of the transition function as it was BEFORE the repair (Model/Axi.v, not tied to /repo):
+   after a 2-pulse run, a back-to-back request for 1 pulse gave 5 pulses in the next 10 cycles and no load_outs; today: 1 pulse, load_outs *)
+Example C16_axi2clk_fsm_back_to_back_before_repair_03e7104 :
+  let first := (true, 2) :: repeat (false, 0) 5 in
+  let second := (true, 1) :: repeat (false, 0) 10 in
+  skipn 7 (map fst (a2c_trace_before_03e7104 8 (a2c_idle 0) (first ++ second))) = [1; 0; 1; 0; 1; 0; 1; 0; 1; 0] /\
+  Forall (fun p => snd p = 0) (skipn 6 (a2c_trace_before_03e7104 8 (a2c_idle 0) (first ++ second))) /\
+  skipn 6 (a2c_trace 8 (a2c_idle 0) (first ++ second)) = [(0, 0); (1, 0); (0, 0); (0, 1); (0, 0); (0, 0); (0, 0); (0, 0); (0, 0); (0, 0); (0, 0)].
+Proof. vm_compute. repeat split. repeat constructor. Qed.
 
 (* ------------------------------------------------------------------ non-vacuity of the hypotheses *)
 Definition ok_sched : list r2a_in :=
